@@ -687,6 +687,7 @@ def run(chk: Check):
                         'slope overflow / NaN coordinates are not modelled (inputs are finite points inside the grid)',
                         'C04 does not fix the latitude at which a crossing segment meets the antimeridian: the allowed '
                         'excess is accepted for the straight line and for the as-coded bent line (C05 decides that)']
+    note_source(chk)
     chk.coq_props('props/C04_Props.v')
     cases = load_corpus('C04') + [gen_case(chk.rng) for _ in range(chk.n(1000, 12000))]
     check_cases(chk, cases)
@@ -721,7 +722,22 @@ def check_cases(chk: Check, cases):
             chk.traces_validated += 1
 
 
+def note_source(chk: Check):
+    """Import the module under check FIRST (before the Coq re-check, which takes seconds) and record which file
+    and which content was checked: a tree that is swapped under a running check then shows in the evidence."""
+    import hashlib
+
+    from harness import common
+    common.stub_shapely()
+    import AEIC.gridding.grid as G
+    src = Path(G.__file__)
+    chk.notes['checked_source'] = {'file': str(src), 'sha1': hashlib.sha1(src.read_bytes()).hexdigest()}
+    if not str(src.resolve()).startswith(str((common.REPO / 'src').resolve())):
+        chk.broken('wrong-tree', f'AEIC.gridding.grid was imported from {src}, not from {common.REPO}/src')
+
+
 def replay(chk: Check, rp):
+    note_source(chk)
     chk.coq_props('props/C04_Props.v')
     case = (rp.get('case') or {}).get('case')
     if case:
